@@ -8,11 +8,13 @@ import (
 	"strings"
 
 	"pgregory.net/rapid"
+
+	"verif/pk"
 )
 
 var idents = []string{"a", "b", "c", "d", "x", "y", "z", "foo", "bar", "v1", "n_2", "_t", "f", "g"}
 var numAtoms = []string{"0", "1", "2", "7", "42", "100", "0.5", "2.25"}
-var wordAtoms = []string{"true", "false", "null", "none", `"s"`, `"two  words"`, `"a + b"`}
+var wordAtoms = []string{"true", "false", "null", "none", `"s"`, `"two  words"`, `"a + b"`, `"// x"`, `"/* y */"`, `"(("`}
 var memberNames = []string{"m", "len", "foo", "x", "to_string"}
 var fieldNames = []string{"k", "key", "a", "b2"}
 
@@ -55,7 +57,7 @@ func genExpr(rt *rapid.T, depth int) *node {
 		}
 		return bin(op, sub("l"), deep())
 	case "as":
-		return cast(deep(), pick(rt, "type", typeNames))
+		return cast(deep(), pick(rt, "type", richTypes))
 	case "pre":
 		return pre(pick(rt, "preop", prefixOps), deep())
 	case "call":
@@ -262,7 +264,9 @@ func (g *pgen) stmt(depth int) string {
 	case 3:
 		return "let " + g.fresh("v") + ": " + g.typ() + " = " + g.expr() + ";"
 	case 4:
-		switch rapid.IntRange(0, 5).Draw(g.rt, "simple") {
+		switch rapid.IntRange(0, 6).Draw(g.rt, "simple") {
+		case 6:
+			return "let " + g.fresh("s") + ` = "q\"uote // not a comment" + 'single  /* quoted */ \' ';`
 		case 0:
 			return "return;"
 		case 1:
@@ -314,7 +318,18 @@ func genProgram(rt *rapid.T) string {
 	g := &pgen{rt: rt}
 	var b strings.Builder
 	for i, n := 0, rapid.IntRange(0, 4).Draw(rt, "nitems"); i < n; i++ {
-		switch rapid.IntRange(0, 5).Draw(rt, "item") {
+		switch rapid.IntRange(0, 8).Draw(rt, "item") {
+		case 6:
+			b.WriteString("$" + g.fresh("Dev") + " = { power: bool, @setting url: str, level: ?int\x01 };\n")
+		case 7:
+			slot := "\x01"
+			if pk.GateOpen("impl-with-comma") { // open finding C07-003
+				pk.Gate("impl-with-comma")
+				slot = ""
+			}
+			b.WriteString("impl Feature with { light, dim" + slot + " } for $Lamp {\nfn " + g.fresh("method") + "(self: $Lamp, pct: int\x01) -> bool " + g.block(1, true) + "\n}\n")
+		case 8:
+			b.WriteString("#[trigger " + pick(rt, "conn", []string{"on", "at", "in"}) + " minute(" + g.expr() + ", " + g.expr() + "\x01)]\nevent fn " + g.fresh("handler") + "(elapsed: int\x01) " + g.block(1, false) + "\n")
 		case 0:
 			switch rapid.IntRange(0, 2).Draw(rt, "import") {
 			case 0:
@@ -368,7 +383,11 @@ func genSep(rt *rapid.T, o sepOpts) string {
 		case 3:
 			b.WriteString("\r\n")
 		case 4:
-			b.WriteString("\n\n    ")
+			if rapid.Bool().Draw(rt, "lone-cr") {
+				b.WriteString("\r")
+			} else {
+				b.WriteString("\n\n    ")
+			}
 		case 5:
 			if o.noTab {
 				b.WriteString(" ")
